@@ -38,7 +38,8 @@ VARIABLES eq,        \* pending TypeEqual constraints
           changed, running, rounds
 vars == <<eq, overK, overU, fieldK, fieldU, changed, running, rounds>>
 
-M == 2 * (overK + overU + fieldK + fieldU) + eq
+D == overK + overU + fieldK + fieldU      \* deferrable constraints (Overloaded, StructFieldAccess)
+M == D + D + eq
 
 Init == /\ eq \in 0..MaxEq /\ overK \in 0..MaxOver /\ overU \in 0..MaxOver /\ overK + overU <= MaxOver
         /\ fieldK \in 0..MaxField /\ fieldU \in 0..MaxField /\ fieldK + fieldU <= MaxField
